@@ -13,8 +13,12 @@ const c18MaxCalls = 3
 // c18Scenario: a runner with two schedules is started, optionally restarted, then either stopped or its parent
 // context is cancelled. The supplied function is a ghost interval [fn.begin k, fn.end k]. The runner goroutine is
 // the REAL loop (select over restart / next-schedule timer / ticker / cancellation, unrolled), the timers are
-// driven by the environment (any delivery times, late or dropped ticks allowed, nothing after Stop()).
-func c18Scenario(withRestart bool, stopByCancel bool) {
+// driven by the environment (any delivery times, late or dropped ticks allowed, nothing after Stop()). Stated bound
+// (//verif:horizon): the run is shorter than one hour, so the one-hour placeholder ticker that newSchedules arms before
+// the first schedule starts never fires (if it did while no schedule is current, currentFrequency would index list[-1]).
+func c18Scenario(withRestart bool, stopByCancel bool) { c18ScenarioN(withRestart, stopByCancel, 1) }
+
+func c18ScenarioN(withRestart bool, stopByCancel bool, restarts int) {
 	calls := 0
 	r, err := New(func(freq time.Duration) {
 		zz.Event("fn.begin", calls)
@@ -27,7 +31,9 @@ func c18Scenario(withRestart bool, stopByCancel bool) {
 	zz.Event("start.call")
 	r.Start(ctx)
 	if withRestart {
-		r.Restart()
+		for i := 0; i < restarts; i++ {
+			r.Restart()
+		}
 	}
 	if stopByCancel {
 		cancel()
@@ -52,13 +58,26 @@ func c18Scenario(withRestart bool, stopByCancel bool) {
 // VerifC18_StartStop: Start ... Stop with up to 3 loop rounds of the runner goroutine.
 //
 //verif:conc
+//verif:horizon 3600000000000
 //verif:unroll 3
 //verif:timeout 300
 func VerifC18_StartStop() { c18Scenario(false, false) }
 
+// VerifC18_TwoRestartsNothingLeft: Start, Restart, Restart, Stop with the DEADLOCK / leak query: there is no reachable
+// state in which some goroutine of the runner (or one started on its behalf) is blocked forever while nothing else
+// can move - after Stop no goroutine of the runner remains, also when several restart requests were made.
+//
+//verif:conc
+//verif:horizon 3600000000000
+//verif:unroll 4
+//verif:timeout 300
+//verif:deadlock 1
+func VerifC18_TwoRestartsNothingLeft() { c18ScenarioN(true, false, 2) }
+
 // VerifC18_RestartStop: Start, Restart, Stop.
 //
 //verif:conc
+//verif:horizon 3600000000000
 //verif:unroll 3
 //verif:timeout 300
 func VerifC18_RestartStop() { c18Scenario(true, false) }
@@ -80,6 +99,7 @@ func c18StartFirst(s *schedules) {
 // since every Restart that was processed before the invocation (Restart goes back to the first schedule).
 //
 //verif:conc
+//verif:horizon 3600000000000
 //verif:unroll 5
 //verif:timers real
 //verif:timeout 600
@@ -91,6 +111,7 @@ func VerifC18_ScheduleTiming() { c18ScheduleTiming() }
 // change C18-timer-reset: decided in 40 s at 4 rounds, not within 15 min at 5), while seeded change C18b needs the 5th.
 //
 //verif:conc
+//verif:horizon 3600000000000
 //verif:unroll 4
 //verif:timers real
 //verif:timeout 600
